@@ -280,6 +280,157 @@ def check_xz(ck, prog_xz):
           "memlimit_too_small() ends in message_fatal() and has no return statement", key="XZ:noreturn")
 
 
+# (id, function, file, selector: the expression/condition that mentions all of `select`, required members, why)
+TERMS = [
+    ("mt:admission", "read_output_and_wait", "stream_decoder_mt.c", "cond", ("memlimit_threading", "mem_next_block"),
+     [("lzma_stream_coder@stream_decoder_mt.c", "mem_in_use"), ("lzma_outq", "mem_in_use")],
+     "a new Block may start only if memlimit_threading minus the memory of the running workers AND of the output "
+     "buffers in use still covers mem_next_block"),
+    ("mt:trim-outq-cache", "stream_decode_mt", "stream_decoder_mt.c", "cond", ("mem_max", "!thr"),
+     [("lzma_outq", "mem_allocated")],
+     "the cache of output buffers is trimmed when in-use + cached + all allocated output buffers exceed the head-room"),
+    ("mt:trim-thread-cache", "stream_decode_mt", "stream_decoder_mt.c", "cond", ("mem_max", "thr"),
+     [("lzma_outq", "mem_in_use")],
+     "cached Block decoders are freed when in-use + cached + output buffers in use exceed the head-room"),
+    ("mt:memusage-report", "stream_decoder_mt_memconfig", "stream_decoder_mt.c", "store:memusage", (),
+     [("lzma_stream_coder@stream_decoder_mt.c", "mem_direct_mode"), ("lzma_stream_coder@stream_decoder_mt.c", "mem_in_use"),
+      ("lzma_stream_coder@stream_decoder_mt.c", "mem_cached"), ("lzma_outq", "mem_allocated")],
+     "the reported usage is the sum of all four accounting counters"),
+    ("file-info:index-limit", "file_info_decode", "file_info.c", "callarg:lzma_index_decoder_init:3", (),
+     [("lzma_file_info_coder@file_info.c", "memlimit")],
+     "each Stream's Index decoder gets only what the Indexes decoded so far have left of the limit"),
+]
+
+
+def check_terms(ck, prog, prog_xz):
+    ck.rule("C09-TERMS", "memory comparisons and reports contain every accounting counter they are documented to contain")
+    for (oid, fn, file, sel, select, required, why) in TERMS:
+        f = prog.fn(fn, file)
+        ck.saw_function(f)
+        exprs = []
+        if sel == "cond":
+            # the whole condition of the if statement: collect the chain of branch blocks on the same line range
+            for b in f.blocks.values():
+                if b.term and "cond" in b.term:
+                    c = b.term.get("whole") or b.term["cond"]
+                    exprs.append(c)
+            # conditions are split at && / ||: group the pieces that belong to one statement (same `ln` of the term)
+            groups = {}
+            for b in f.blocks.values():
+                if b.term and "cond" in b.term:
+                    groups.setdefault(b.term.get("ln"), []).append(b.term["cond"])
+            exprs = list(groups.values())
+        elif sel.startswith("store:"):
+            name = sel.split(":", 1)[1]
+            for b, i, e in f.iter_elems():
+                for (l, r, op, node) in ex.writes(e):
+                    if name in ex.show(l) and r is not None and op == "=" and any(x.get("k") == "mem" for x in ex.walk(r)):
+                        exprs.append([r])
+        elif sel.startswith("callarg:"):
+            _, cn, ai = sel.split(":")
+            for b, i, e in f.iter_elems():
+                for c in ex.calls(e, into_refs=False):
+                    if c.get("fn") == cn and len(c["args"]) > int(ai):
+                        exprs.append([c["args"][int(ai)]])
+
+        def mentions(group, name):
+            for g_ in group:
+                for x in guard_nodes(f, g_):
+                    if (x.get("k") == "mem" and x["f"] == name) or (x.get("k") == "var" and x["n"] == name):
+                        return True
+            return False
+
+        def has_member(group, rec, fld):
+            for g_ in group:
+                for x in guard_nodes(f, g_):
+                    if x.get("k") == "mem" and x["f"] == fld and (x.get("rec") == rec or rec is None):
+                        return True
+            return False
+        cands = [g_ for g_ in exprs if all((not mentions(g_, s_[1:])) if s_.startswith("!") else mentions(g_, s_)
+                                           for s_ in select)]
+        if sel.startswith("callarg:") and oid == "file-info:index-limit":
+            # the argument must be a difference: memlimit - (memory already used by the combined Index)
+            ok = bool(cands) and all(
+                any(x.get("k") == "bin" and x["op"] == "-" for g_ in grp for x in ex.walk(g_)) and
+                has_member(grp, required[0][0], required[0][1]) and mentions(grp, "memused") for grp in cands)
+            ck.ob("C09-TERMS", oid, ok, common.where(f), "%s: %s (%s)" % (
+                fn, why, " ; ".join(ex.show(g_) for grp in cands for g_ in grp)) if ok else
+                "%s(): lzma_index_decoder_init() is given `%s` as its memory limit: %s" % (
+                    fn, " ; ".join(ex.show(g_) for grp in cands for g_ in grp), why), key="TERMS:" + oid)
+            continue
+        if not cands:
+            raise AnalysisBroken("%s: expression for %s not found" % (fn, oid))
+        missing = [(r_, fl) for grp in cands for (r_, fl) in required if not has_member(grp, r_, fl)]
+        ck.ob("C09-TERMS", oid, not missing, common.where(f, cands[0][0]),
+              "%s: %s" % (fn, why) if not missing else
+              "%s(): the expression `%s` lacks %s: %s" % (
+                  fn, " && ".join(ex.show(g_) for g_ in cands[0]), ", ".join("%s.%s" % m_ for m_ in missing), why),
+              key="TERMS:" + oid)
+    # xz: the single-threaded fallback must really select the single-threaded encoder: wherever the memory usage
+    # is re-estimated for the single-threaded encoder (mt argument NULL) although threading is on
+    # (hardware_threads_is_mt() was true on the way), hardware_threads_set(1) must have been called first
+    g = prog_xz.fn("coder_set_compression_settings", "coder.c", target="xz")
+    doms = cfg.dominators(g)
+    mt_true = {}
+    for b_ in g.blocks.values():
+        if b_.term and "cond" in b_.term and len(b_.succs) == 2 and \
+                any(c.get("fn") == "hardware_threads_is_mt" for c in ex.calls(b_.term["cond"])):
+            neg = ex.show(b_.term["cond"]).startswith("!")
+            mt_true[b_.id] = b_.succs[1] if neg else b_.succs[0]
+    sites = 0
+    bad = None
+    for b_, i, e in g.iter_elems():
+        for c in ex.calls(e, into_refs=False):
+            if c.get("fn") != "get_chains_memusage" or len(c["args"]) < 3:
+                continue
+            if not ex.is_const(c["args"][1], 0):
+                continue
+            in_mt = any(t_ is not None and (t_ == b_.id or t_ in doms.get(b_.id, ())) for t_ in mt_true.values())
+            if not in_mt:
+                continue
+            sites += 1
+
+            def via(bb, ii, ee):
+                if bb.id == b_.id and ii >= i:
+                    return False
+                return any(x.get("fn") == "hardware_threads_set" and x["args"] and ex.const_val(x["args"][0]) == 1
+                           for x in ex.calls(ee, into_refs=False))
+            ok = any(via(b_, j, b_.elems[j]) for j in range(0, i) if b_.elems[j] is not None)
+            if not ok:
+                srcs = [t_ for t_ in mt_true.values() if t_ is not None and (t_ == b_.id or t_ in doms.get(b_.id, ()))]
+                ok, _p = cfg.must_pass(g, srcs, [b_.id], via)
+            if not ok:
+                bad = ex.line(c)
+    init = prog_xz.fn("coder_init", "coder.c", target="xz", required=False)
+    uses = init is not None and any(c.get("fn") == "hardware_threads_is_mt" for b_, i, e in init.iter_elems()
+                                    for c in ex.calls(e))
+    if sites == 0:
+        raise AnalysisBroken("xz coder.c: single-threaded re-estimation under threading not found")
+    ck.ob("C09-TERMS", "xz:single-thread-fallback", bad is None and uses, common.where(g),
+          "xz: every single-threaded re-estimation of the memory usage made while threading is on (%d site(s)) follows "
+          "hardware_threads_set(1), which is what coder_init() consults when it chooses the encoder" % sites
+          if bad is None and uses else
+          "xz: coder_set_compression_settings() re-estimates the memory usage for the single-threaded encoder at line %s "
+          "without hardware_threads_set(1): coder_init() still creates the threaded encoder, which needs more memory "
+          "than the usage that was compared with the limit" % bad, key="TERMS:xz:single-thread-fallback")
+    ck.floor("C09-TERMS", 6)
+
+
+def guard_nodes(f, n):
+    """Nodes of an expression with single-definition locals expanded (depth 2)."""
+    seen = set()
+
+    def rec(x, depth):
+        for y in ex.walk(x):
+            yield y
+            if y.get("k") == "var" and y.get("s") == "l" and depth < 2:
+                d = guard.single_def(f, y.get("id"))
+                if d is not None and id(d) not in seen:
+                    seen.add(id(d))
+                    yield from rec(d, depth + 1)
+    yield from rec(n, 0)
+
+
 def run(ck):
     ck.explanation = (
         "Must-pass (edge cut) rules on the resume-aware product graphs of the container decoders: every "
@@ -298,3 +449,4 @@ def run(ck):
     check_tab(ck, prog)
     prog_xz = common.program(ck, ("xz",), files=("/coder.c",))
     check_xz(ck, prog_xz)
+    check_terms(ck, prog, prog_xz)
